@@ -17,6 +17,8 @@ pub mod classify;
 pub mod sinks;
 pub mod conv;
 pub mod wav;
+pub mod hampel;
+pub mod c01;
 
 pub fn lookup(id: &str) -> Option<Prop> {
     Some(match id {
@@ -34,6 +36,9 @@ pub fn lookup(id: &str) -> Option<Prop> {
         "C11" => Prop { header: sinks::HEADER, generate: sinks::generate, exec: sinks::exec },
         "C05" => Prop { header: conv::HEADER, generate: conv::generate, exec: conv::exec },
         "C07" => Prop { header: wav::HEADER, generate: wav::generate, exec: wav::exec },
+        "C16" => Prop { header: smooth::H16, generate: smooth::gen16, exec: smooth::exec16 },
+        "C18" => Prop { header: hampel::HEADER, generate: hampel::generate, exec: hampel::exec },
+        "C01" => Prop { header: c01::HEADER, generate: c01::generate, exec: c01::exec },
         _ => return None,
     })
 }
